@@ -160,12 +160,16 @@ macro_rules! tiny_e2e {
                 q[j] = raw[j];
                 j += 1;
             }
+            // N == 0: a zero-length slice of a real one-element array (CBMC does not decide `ptr == end` on a
+            // zero-sized array object and would unroll the builder loop to the bound)
+            let base = [0u8; 1];
+            let qs: &[u8] = if N == 0 { &base[..0] } else { &q[..] };
             let rs: $ty = if $path == 0 {
-                <$ty>::new(&q)
+                <$ty>::new(qs)
             } else if $path == 1 {
-                q.iter().copied().collect()
+                qs.iter().copied().collect()
             } else {
-                <$ty>::from(q.iter().copied().collect::<QVector>())
+                <$ty>::from(qs.iter().copied().collect::<QVector>())
             };
             assert!(rs.len() == N && rs.is_empty() == (N == 0));
             let c: u8 = kani::any();
@@ -263,7 +267,9 @@ macro_rules! tiny_select {
                 q[j] = raw[j];
                 j += 1;
             }
-            let rs = <$ty>::new(&q);
+            let base = [0u8; 1];
+            let qs: &[u8] = if N == 0 { &base[..0] } else { &q[..] };
+            let rs = <$ty>::new(qs);
             let c: u8 = kani::any();
             let k: usize = kani::any();
             let mut occ = 0usize;
@@ -279,17 +285,19 @@ macro_rules! tiny_select {
                 let p = s.unwrap();
                 assert!(p < N && q[p] == c);
                 assert!(rs.rank(c, p) == Some(k));
+                // C10: the unchecked twin on a valid argument, with debug assertions on
+                assert!(unsafe { rs.select_unchecked(c, k) } == p);
             } else {
                 assert!(s.is_none());
             }
-            kani::cover!(N == 0 || (c < 4 && k + 1 == occ), "last occurrence selected");
+            kani::cover!(N == 0 || (c < 4 && k.wrapping_add(1) == occ), "last occurrence selected");
             kani::cover!(k == usize::MAX, "largest k");
             kani::cover!(c > 3, "invalid symbol");
             core::mem::forget(rs);
         }
     };
 }
-// @h props=C05,C04 tier=quick family=T optional=yes mem=30 timeout=2400 role=rsqvector256.tiny_select
+// @h props=C05,C04:t,C10:t tier=thorough family=T optional=yes mem=30 timeout=3600 role=rsqvector256.tiny_select
 // @bound RSQVector256::new on 2 symbolic symbols: select for every symbol byte and every k of the machine range (optional: reported inconclusive if it exceeds 30 GB)
 // @funcs RSQVector::select, RSSupportPlain::select_block, RSQVector::select_intra_block, SuperblockPlain::block_predecessor
 tiny_select!(c05_tiny_256_select_n2, RSQVector256, 2);
@@ -297,3 +305,31 @@ tiny_select!(c05_tiny_256_select_n2, RSQVector256, 2);
 // @bound empty RSQVector256: select for every symbol byte and every k
 // @funcs RSQVector::select
 tiny_select!(c05_tiny_256_select_empty, RSQVector256, 0);
+// @h props=C05,C04:t,C10:t tier=thorough family=T optional=yes mem=20 timeout=3600 role=rsqvector256.tiny_select
+// @bound RSQVector256::new on 1 symbolic symbol: select / select_unchecked for every symbol byte and every k of the machine range
+// @funcs RSQVector::select, RSQVector::select_unchecked, RSSupportPlain::select_block, RSQVector::select_intra_block, SuperblockPlain::block_predecessor
+tiny_select!(c05_tiny_256_select_n1, RSQVector256, 1);
+// @h props=C05,C10:t tier=thorough family=T optional=yes mem=20 timeout=3600 role=rsqvector512.tiny_select
+// @bound RSQVector512::new on 1 symbolic symbol: select / select_unchecked
+// @funcs RSQVector::select, RSQVector::select_unchecked, RSSupportPlain::select_block, RSQVector::select_intra_block
+tiny_select!(c05_tiny_512_select_n1, RSQVector512, 1);
+
+// @h props=C05,C04,C10 tier=quick family=T prof=AB mem=16 timeout=1800 role=rsqvector.select_unchecked.valid
+// @bound RSQVector256 / RSQVector512 over the one-symbol vector [s] (s symbolic): select_unchecked(s, 0) - a valid call - equals select(s, 0) = 0, with and without debug assertions
+// @funcs RSQVector::select_unchecked, RSQVector::select, RSSupportPlain::select_block, RSQVector::select_intra_block
+#[kani::proof]
+#[kani::unwind(8)]
+fn c05_select_unchecked_valid_n1() {
+    let s: u8 = kani::any();
+    kani::assume(s < 4);
+    let q = [s];
+    let a = RSQVector256::new(&q);
+    assert!(a.select(s, 0) == Some(0));
+    assert!(unsafe { a.select_unchecked(s, 0) } == 0);
+    let b = RSQVector512::new(&q);
+    assert!(b.select(s, 0) == Some(0));
+    assert!(unsafe { b.select_unchecked(s, 0) } == 0);
+    kani::cover!(s == 3, "largest symbol");
+    core::mem::forget(a);
+    core::mem::forget(b);
+}
